@@ -49,8 +49,7 @@ def _objects(x, path, out):
     elif isinstance(x, GeneralizedContractionShell):
         out.append((path, x))
     elif isinstance(x, (list, tuple)):
-        if isinstance(x, list):
-            out.append((path, x))
+        out.append((path, x))       # tuples too: their scalar entries (component labels, ...) are part of the request
         for i, y in enumerate(x):
             _objects(y, "%s[%d]" % (path, i), out)
     elif isinstance(x, dict):
@@ -67,8 +66,8 @@ def _value(o):
         parts = [repr(o.angmom).encode(), np.asarray(o.coord).tobytes(), np.asarray(o.exps).tobytes(),
                  np.asarray(o.coeffs).tobytes(), repr(o.coord_type).encode(), np.asarray(o.norm_cont).tobytes()]
         return _vid("shell", b"|".join(parts))
-    if isinstance(o, list):
-        return _vid("list", repr([type(i).__name__ if isinstance(i, (np.ndarray, list, dict)) or hasattr(i, "norm_cont") else i for i in o]).encode())
+    if isinstance(o, (list, tuple)):
+        return _vid(type(o).__name__, repr([type(i).__name__ if isinstance(i, (np.ndarray, list, dict)) or hasattr(i, "norm_cont") else i for i in o]).encode())
     if isinstance(o, dict):
         return _vid("dict", repr(sorted(map(repr, o.keys()))).encode())
     return _vid("other", repr(o).encode())
